@@ -438,6 +438,14 @@ def pred_always(x):
     return True
 
 
+def pred_is_none(x):
+    return x is None
+
+
+def pred_tuple_or_none(x):
+    return type(x) is tuple or x is None
+
+
 def pred_custom(x):
     return type(x) in (CG, CN, CS, CD)
 
@@ -449,6 +457,8 @@ PREDICATES = {
     'leafbox': pred_container_of_leaves,
     'always': pred_always,
     'custom': pred_custom,
+    'is_none': pred_is_none,  # interacts with none_is_leaf=False: None becomes a leaf through the predicate
+    'tuple_or_none': pred_tuple_or_none,  # only when asked for (reduced predicate menus)
 }
 
 # dict-order modes: name -> list of (mode, namespace-arg) context managers to enter
@@ -504,7 +514,7 @@ class force_mode:  # noqa: N801
 
 
 def all_configs(predicates=None, namespaces=None, modes=None, nils=(False, True)):
-    predicates = list(PREDICATES) if predicates is None else predicates
+    predicates = [p for p in PREDICATES if p != 'tuple_or_none'] if predicates is None else predicates
     namespaces = list(Universe.NAMESPACES) if namespaces is None else namespaces
     modes = list(DICT_MODES) if modes is None else modes
     return [
